@@ -24,7 +24,10 @@ Progs == <<
   SeqB(<< Loop(1, SeqB(<< G("P"), G("M") >>)), G("P"), Loop(3, SeqB(<<G("G")>>)), G("M") >>),
   SeqB(<< Loop(2, SeqB(<< Loop(0, SeqB(<< Subc(<<>>) >>)), Subc(<<G("G")>>) >>)), Subc(<<>>) >>),
   SeqB(<< Loop(0, SeqB(<< Subc(<<>>), Loop(2, SeqB(<< Subc(<<>>) >>)) >>)), Loop(2, SeqB(<< Subc(<<>>) >>)) >>),
-  SeqB(<< Subc(<<>>), Loop(3, SeqB(<< Loop(2, SeqB(<< Subc(<<>>), Subc(<<G("G")>>) >>)) >>)), Loop(0, SeqB(<<>>)) >>)
+  SeqB(<< Subc(<<>>), Loop(3, SeqB(<< Loop(2, SeqB(<< Subc(<<>>), Subc(<<G("G")>>) >>)) >>)), Loop(0, SeqB(<<>>)) >>),
+  \* a prepare_all repeated by a loop, closed once; a measure_all that is never executed
+  SeqB(<< Loop(2, SeqB(<< G("P") >>)), G("M") >>),
+  SeqB(<< G("P"), Loop(0, SeqB(<< G("M") >>)), Subc(<<>>) >>)
 >>
 CONSTANTS Which, Fixed
 Prog == Progs[Which]
@@ -39,14 +42,22 @@ FlatEv(nd, addr) == CASE nd.k = "g" -> << [v |-> nd.v, a |-> addr] >>
 \* note: statement i of a block at address A has address A \o <<i>>; a loop's body statements get A_loop \o <<j>>
 TopEv == FlatEvSeq(Prog.c, <<>>, 1)
 
-\* trace starts: address of the last P before each M (flat order)
+\* the walker's objectives.  Pinned algorithm: the START of every trace (address of the last P before each M, flat
+\* order); repaired algorithm (commit "a readout is produced when a subcircuit's measure_all is reached"): its END
+\* (the address of that M).
 RECURSIVE Starts(_, _, _)
 Starts(ev, i, cur) == IF i > Len(ev) THEN <<>>
                       ELSE IF ev[i].v = "P" THEN Starts(ev, i+1, <<ev[i].a>>)
                       ELSE IF ev[i].v = "M" THEN cur \o Starts(ev, i+1, <<>>)
                       ELSE Starts(ev, i+1, cur)
-Traces == Starts(TopEv, 1, <<>>)
-TraceIdx(a) == CHOOSE j \in 1..Len(Traces) : Traces[j] = a
+RECURSIVE Ends(_, _, _)
+Ends(ev, i, open) == IF i > Len(ev) THEN <<>>
+                     ELSE IF ev[i].v = "P" THEN Ends(ev, i+1, TRUE)
+                     ELSE IF ev[i].v = "M" THEN (IF open THEN <<ev[i].a>> ELSE <<>>) \o Ends(ev, i+1, FALSE)
+                     ELSE Ends(ev, i+1, open)
+StartTraces == Starts(TopEv, 1, <<>>)
+Traces == IF Fixed THEN Ends(TopEv, 1, FALSE) ELSE StartTraces
+TraceIdx(a) == CHOOSE j \in 1..Len(StartTraces) : StartTraces[j] = a
 
 RECURSIVE UnEv(_, _)
 RECURSIVE UnEvSeq(_, _, _)
